@@ -84,6 +84,28 @@ func LoadVerifier(repo, libDir string, patterns []string) (*Verifier, error) {
 		}
 		v.funcs[funcKey(fn)] = fn
 	}
+	// methods of every named type of the repository's packages (also unexported ones)
+	for _, p := range prog.AllPackages() {
+		if !strings.HasPrefix(p.Pkg.Path(), "golang.org/x/perf") {
+			continue
+		}
+		for _, m := range p.Members {
+			tn, ok := m.(*ssa.Type)
+			if !ok {
+				continue
+			}
+			for _, t := range []types.Type{tn.Type(), types.NewPointer(tn.Type())} {
+				ms := prog.MethodSets.MethodSet(t)
+				for i := 0; i < ms.Len(); i++ {
+					if fn := prog.MethodValue(ms.At(i)); fn != nil && fn.Synthetic == "" {
+						if _, ok := v.funcs[funcKey(fn)]; !ok {
+							v.funcs[funcKey(fn)] = fn
+						}
+					}
+				}
+			}
+		}
+	}
 	// contract files: contracts_verif.go beside the code, in every loaded repo package
 	seen := map[string]bool{}
 	var loadErr error
